@@ -41,7 +41,7 @@ pub fn gen(r: &mut Rng) -> Value {
     let n2 = 1 + r.below(4);
     let lib = if r.chance(1, 2) { let l = gen_ops(r, n2); Value::Array(with_wraps(r, l)) } else { Value::Null };
     let inc_at = r.below(main.len() + 1);
-    json!({"ops": main, "lib": lib, "inc_at": inc_at, "as_text": r.chance(1, 4)})
+    json!({"ops": main, "lib": lib, "inc_at": inc_at, "as_text": r.chance(1, 4), "crlf": r.chance(1, 4)})
 }
 
 fn render(prefix: &str, i: usize, op: &Value) -> String {
@@ -203,8 +203,9 @@ pub fn run(input: &Value) -> Option<Value> {
             }
         }
     }
-    let main_text = main_lines.join("\n");
-    let lib_text = lib_lines.join("\n");
+    let eol = if input["crlf"].as_bool().unwrap_or(false) { "\r\n" } else { "\n" };
+    let main_text = main_lines.join(eol);
+    let lib_text = lib_lines.join(eol);
     std::fs::write(&main_path, &main_text).ok()?;
     if lib.is_some() {
         std::fs::write(&lib_path, &lib_text).ok()?;
